@@ -441,10 +441,19 @@ fn run_inner(case: &Case, root: &Path, thorough: bool) -> Result<Stats, Failure>
             }
         });
         let mut in_flight: Option<usize> = None;
+        let mut got_any = false;
         loop {
-            let budget = if retry_idx.is_some() && retry_idx == in_flight { FAULT_RETRY_TIMEOUT_S } else { FAULT_TIMEOUT_S };
+            // a fresh worker first parses the whole job (tens of MB in the thorough tier): generous start-up
+            let budget = if !got_any {
+                WORKER_STARTUP_TIMEOUT_S
+            } else if retry_idx.is_some() && retry_idx == in_flight {
+                FAULT_RETRY_TIMEOUT_S
+            } else {
+                FAULT_TIMEOUT_S
+            };
             match rx.recv_timeout(std::time::Duration::from_secs(budget)) {
                 Ok(line) => {
+                    got_any = true;
                     if let Some(rest) = line.strip_prefix("B ") {
                         in_flight = rest.trim().parse().ok();
                     } else if let Some(rest) = line.strip_prefix("R ") {
@@ -524,6 +533,7 @@ fn run_inner(case: &Case, root: &Path, thorough: bool) -> Result<Stats, Failure>
 
 const FAULT_TIMEOUT_S: u64 = 20;
 const FAULT_RETRY_TIMEOUT_S: u64 = 120;
+const WORKER_STARTUP_TIMEOUT_S: u64 = 300;
 
 static HANGS: std::sync::Mutex<Vec<String>> = std::sync::Mutex::new(Vec::new());
 
